@@ -15,6 +15,7 @@ import (
 	"path/filepath"
 	"regexp"
 	"runtime"
+	"runtime/pprof"
 	"sort"
 	"strconv"
 	"strings"
@@ -190,6 +191,12 @@ func cmdRun(args []string) int {
 	fs.Parse(args[1:])
 	seed, _ := strconv.ParseInt(envOr("VERIF_SEED", "0"), 10, 64)
 	t0 := time.Now()
+	if pf := os.Getenv("VERIF_PROF"); pf != "" {
+		if f, err := os.Create(pf); err == nil {
+			pprof.StartCPUProfile(f)
+			defer pprof.StopCPUProfile()
+		}
+	}
 
 	ov, used := buildOverlay(prop)
 	if len(used) == 0 {
@@ -754,6 +761,39 @@ func conclude(prop, tier string, seed int64, t0 time.Time, loadS float64, result
 				fmt.Fprintf(os.Stderr, "native replay failed: %v\n", err)
 				os.RemoveAll(stage)
 				continue
+			}
+			// harnesses that run against the wall clock natively (socket level): a disagreement is retried once,
+			// alone, before it counts (scheduling noise on a loaded machine)
+			{
+				var again []string
+				for dst, p := range staged {
+					nr, ok := res[dst]
+					if !ok {
+						continue
+					}
+					timed := false
+					if p.model != nil {
+						_, timed = p.model.Model["clock.t0"]
+					} else if p.finding != nil {
+						_, timed = p.finding.Model["clock.t0"]
+					}
+					if timed && ((p.model != nil && nr.Status != "ok") || (p.finding != nil && nr.Status == "ok")) {
+						again = append(again, dst)
+					}
+				}
+				sort.Strings(again)
+				for _, dst := range again {
+					stage2, _ := os.MkdirTemp("", "vcheck-stage-")
+					b, _ := os.ReadFile(dst)
+					d2 := filepath.Join(stage2, "r00000.json")
+					os.WriteFile(d2, b, 0644)
+					if res2, err2 := runNative(dir, ov, harnessNames[dir], stage2); err2 == nil {
+						if r, ok := res2[d2]; ok {
+							res[dst] = r
+						}
+					}
+					os.RemoveAll(stage2)
+				}
 			}
 			for dst, p := range staged {
 				nr, ok := res[dst]
